@@ -37,6 +37,12 @@ EXPLANATION = (
 
 
 def run(ctx: Ctx):
+    from . import c15 as _c15
+    ctx.attempt(_c15.pending_reports, ctx)  # "reported exactly once": a filed report stays pending until a flush takes it
+    # "the energies of its charge events sum to the energy it gained": what add_energy books as gained is the difference of the level it stores
+    from . import c04 as _c04
+    for file_, cname_ in ((_c04.BEV, "BEV"), (_c04.ICE, "ICE")):
+        ctx.attempt(_c04.mechatronics_method, ctx, ctx.repo.func(file_, f"{cname_}.add_energy"), cname_, "add_energy", "tick_energy_gained", "up")
     ctx.attempt(move_events, ctx)
     ctx.attempt(charge_events, ctx)
     ctx.attempt(simple_events, ctx)
